@@ -334,6 +334,8 @@ def _cases(lattice, tier, seed, per_stratum, container, salt, forced_bit=None):
         if container == "Dataset":
             # two items, one item, or coordinates only (seeded/C02-s3)
             case["container"] = ("Dataset", "Dataset", "Dataset-1-item", "Dataset-0-items")[pick % 4]
+        # the scatter flag as a numpy bool in a quarter of the cases (seeded/C06-s6)
+        case["scatter_form"] = ("bool", "bool", "bool", "np.bool_")[(key * 2246822519 + salt) % 4294967296 >> 9 & 3]
         if container == "unaligned":
             # coordinates that are present but flagged unaligned (what a previous convert leaves
             # behind for its consumed inputs; seeded/C02-s4): energies only, or everything but the origin
@@ -482,13 +484,17 @@ def _err_label(e):
     return f"err:<1e{int(math.floor(math.log10(e))) + 1}"
 
 
+def _flag(case):
+    return np.bool_(case["scatter"]) if case.get("scatter_form") == "np.bool_" else case["scatter"]
+
+
 def _convert(data, case):
     """('value', result) | ('error', exc) — only an exact RuntimeError is the allowed failure."""
     import scippneutron as scn
 
     try:
         return "value", scn.convert(data, origin=case["origin"], target=case["target"],
-                                    scatter=case["scatter"])
+                                    scatter=_flag(case))
     except RuntimeError as e:
         if type(e) is not RuntimeError:
             raise
@@ -499,7 +505,7 @@ def _classify(case, env, out):
     """Labels and the non-triviality rule (see RULE)."""
     origin, target, scatter = case["origin"], case["target"], case["scatter"]
     present = [n for n in M.COORDS if n in env]
-    labs = [f"container:{case['container']}", f"unaligned:{case.get('unaligned', 'none')}",
+    labs = [f"scatter-form:{case.get('scatter_form', 'bool')}", f"container:{case['container']}", f"unaligned:{case.get('unaligned', 'none')}",
             f"origin:{origin}", f"target:{target}", f"scatter:{scatter}", f"model:{out.status}",
             f"mode:{out.mode}", f"present:{len(present) // 4 * 4}-{len(present) // 4 * 4 + 3}"]
     nontrivial = False
@@ -605,7 +611,7 @@ def check_graph(case):
     data = build(case)
     status, res = _convert(data, case)
     try:
-        graph = scn.deduce_conversion_graph(data, origin=origin, target=target, scatter=scatter)
+        graph = scn.deduce_conversion_graph(data, origin=origin, target=target, scatter=_flag(case))
     except RuntimeError as e:
         if type(e) is not RuntimeError:
             raise
